@@ -444,6 +444,19 @@ impl IceConn {
     }
 }
 
+/// Verification hooks (H3): public wrappers around the two crate-private
+/// remote-address mutators so an external monitor can drive them.
+#[cfg(rustrtc_verif)]
+impl IceConn {
+    pub fn verif_selected_pair_update(&self, addr: SocketAddr) {
+        self.set_remote_addr_from_selected_pair(addr, "verif");
+    }
+
+    pub fn verif_signaling_retarget(&self, addr: SocketAddr) {
+        self.set_remote_addr_from_signaling(addr, "verif");
+    }
+}
+
 #[async_trait]
 impl PacketReceiver for IceConn {
     async fn receive(&self, packet: Bytes, addr: SocketAddr, marshal_buf: &mut Vec<u8>) {
